@@ -1150,6 +1150,7 @@ func (g *Gen) builtin(st *State, b *ssa.Builtin, cc *ssa.CallCommon, resTy types
 		}
 	case "close":
 		if g.C != nil && g.C.ChanState && len(args) == 1 && args[0].K == VScalar && args[0].T != nil {
+			g.callAsserts(st, "close", map[string]Val{"ch": args[0]}, pos)
 			n := "O:ghost.closed"
 			h := g.heapGet(st, n, ArraySort(SInt, SInt))
 			g.oblige(st, "chan-close", "", "close of a channel that is already closed (ghost closed)", pos, Eq(Select(h, args[0].T), IntLit(0)))
